@@ -366,3 +366,130 @@ def consistent_def_blocks(fn, prog, bb):
         if len(good) == 1 and not other:
             out.append(good[0][0])
     return out
+
+
+# ------------------------------------------------------------------------------------------------
+# must-alias flow of one value: which places hold (a reference to) a given value along a path
+
+def _np(p):
+    if p[0] == "d":
+        return ("d",)
+    if p[0] == "f":
+        return ("f", p[1])
+    if p[0] == "dc":
+        return ("dc", p[1])
+    return (p[0], "?")
+
+
+def norm_place(place):
+    return (place[0], tuple(_np(p) for p in place[1]))
+
+
+def _prefixed(S, P):
+    """suffixes of the tracked paths that start with P"""
+    return [T[1][len(P[1]):] for T in S if T[0] == P[0] and T[1][:len(P[1])] == P[1]]
+
+
+def alias_step(S, st):
+    """transfer of one assignment over a set of access paths that all hold the tracked value (copies, moves, `&place`,
+    re-borrows `&*q`, aggregates and their destructuring); other rvalues only kill"""
+    if st.get("k") != "=":
+        return S
+    D = norm_place(st["p"])
+    r = st["r"]
+    gen = set()
+    if r[0] == "use" and r[1][0] in ("c", "m"):
+        P = norm_place(r[1][1])
+        for rest in _prefixed(S, P):
+            gen.add((D[0], D[1] + rest))
+    elif r[0] == "ref":
+        P = norm_place(r[2])
+        if P[1] and P[1][-1] == ("d",) and (P[0], P[1][:-1]) in S:
+            gen.add(D)
+        for rest in _prefixed(S, P):
+            gen.add((D[0], D[1] + (("d",),) + rest))
+    elif r[0] == "agg":
+        info = r[1]
+        for i, op in enumerate(r[2]):
+            if op[0] not in ("c", "m"):
+                continue
+            P = norm_place(op[1])
+            pre = (("dc", info.get("variant")), ("f", i)) if info.get("k") == "adt" and info.get("variant") is not None and info.get("enum", True) and info.get("variant") not in (None, "") and _is_enum_agg(info) else (("f", i),)
+            for rest in _prefixed(S, P):
+                gen.add((D[0], D[1] + pre + rest))
+    elif r[0] == "cast" and len(r) > 2 and isinstance(r[2], list) and r[2] and r[2][0] in ("c", "m"):
+        P = norm_place(r[2][1])
+        for rest in _prefixed(S, P):
+            gen.add((D[0], D[1] + rest))
+    keep = {T for T in S if not (T[0] == D[0] and T[1][:len(D[1])] == D[1])}
+    return frozenset(keep | gen)
+
+
+def _is_enum_agg(info):
+    # struct aggregates carry their only variant's name as well; Option/Result/Poll and other enums are read through a downcast
+    return info.get("adt", "").rsplit("::", 1)[-1] in ("Option", "Result", "Poll", "ControlFlow") or info.get("is_enum", False)
+
+
+def alias_explore(fn, start_bb, S0, on_stmt, blocked_edge=lambda bb, tb, lab: False, limit=200000, variant_names=None, V0=()):
+    """Forward exploration of (block, set of access paths holding the tracked value, known enum variants of places) from
+    the top of `start_bb`. on_stmt(bb, index, statement, S) is called before each assignment is applied; edges for which
+    blocked_edge holds are not followed; a call's destination is killed. Variants: after `x = None` / `x = Some(..)`
+    (and moves of x) a switch on x's discriminant follows only the matching edge -- an Option built on this very path
+    and tested again after being handed through a helper's return does not fork the path."""
+    from collections import deque
+    seen = set()
+    dq = deque([(start_bb, frozenset(S0), frozenset(V0))])
+    n = 0
+    while dq:
+        n += 1
+        if n > limit:
+            raise RuntimeError("alias exploration exceeded %d states" % limit)
+        bb, S, V = dq.popleft()
+        if (bb, S, V) in seen or fn.is_cleanup(bb):
+            continue
+        seen.add((bb, S, V))
+        Vd = dict(V)
+        for si, st in enumerate(fn.blocks[bb]["st"]):
+            on_stmt(bb, si, st, S)
+            S = alias_step(S, st)
+            if st.get("k") == "=":
+                D = norm_place(st["p"])
+                r = st["r"]
+                newv = None
+                if r[0] == "agg" and r[1].get("k") == "adt" and r[1].get("variant") and _is_enum_agg(r[1]):
+                    newv = r[1]["variant"]
+                elif r[0] == "use" and r[1][0] in ("c", "m"):
+                    newv = Vd.get(norm_place(r[1][1]))
+                for k in [k for k in Vd if k[0] == D[0] and k[1][:len(D[1])] == D[1]]:
+                    del Vd[k]
+                if newv is not None:
+                    Vd[D] = newv
+            elif st.get("k") == "setdiscr":
+                D = norm_place(st["p"])
+                Vd.pop(D, None)
+        t = fn.blocks[bb]["t"]
+        if t["k"] == "call" and t.get("dest") is not None:
+            D = norm_place(t["dest"])
+            S = frozenset(T for T in S if not (T[0] == D[0] and T[1][:len(D[1])] == D[1]))
+            for k in [k for k in Vd if k[0] == D[0] and k[1][:len(D[1])] == D[1]]:
+                del Vd[k]
+        only = None
+        if t["k"] == "switch" and variant_names is not None:
+            info = fn.switch_info(bb)
+            if info and info.get("kind") == "variant":
+                known = Vd.get(norm_place(info["place"]))
+                if known is not None:
+                    names = variant_names(info["ty"]) or {}
+                    listed = {lab: names.get(lab) for _, lab in fn.succ(bb) if lab != "otherwise"}
+                    if known in listed.values():
+                        only = {lab for lab, nm in listed.items() if nm == known}
+                    else:
+                        only = {"otherwise"}
+        V2 = frozenset(Vd.items())
+        for tb, lab in fn.succ(bb):
+            if fn.is_cleanup(tb) or blocked_edge(bb, tb, lab):
+                continue
+            if only is not None and lab not in only:
+                continue
+            dq.append((tb, S, V2))
+    return seen
